@@ -319,4 +319,10 @@ struct MinusCtl
    }
 };
 void use_minus_ctl(MinusCtl& a, const MinusCtl& b) { a -= b; }
+
+// S9: a comparator that transforms only one of its interchangeable arguments
+bool one_sided_comparator(char ch1, char ch2)
+{
+   return ch1 == std::toupper(ch2);
+}
 }
